@@ -152,7 +152,8 @@ def generate(rng, tier):
         elif r < 0.62:
             yield dict(case=C.norm([2, gen_url(rng)]), kind="parse-url")
         elif r < 0.80:
-            yield dict(case=C.norm([3, gen_map(rng)]), kind="map-roundtrip")
+            # third element: 1 = keys inserted as &'static str (Cow::Borrowed), 0 = owned Strings
+            yield dict(case=C.norm([3, gen_map(rng), rng.randint(0, 1)]), kind="map-roundtrip")
         elif r < 0.88:
             pairs = [[rng.choice(["id", "x", "y"]), raw(rng, 6)] for _ in range(rng.choice([1, 1, 2, 3]))]
             yield dict(case=C.norm([4, pairs]), kind="route-params")
@@ -343,6 +344,8 @@ def valid_case(item):
             s = bytes(arg).strip(bytes(range(0, 33)))
             return _utf8(arg) and s[:1] == b"/" and s[1:2] not in (b"/", b"\\")
         if op == 3:
+            if len(case) > 2 and case[2] not in (0, 1):
+                return False
             keys = [tuple(k) for k, vs in arg]
             return (len(set(keys)) == len(keys) and all(len(vs) > 0 for k, vs in arg)
                     and all(_utf8(k) and all(_utf8(v) for v in vs) for k, vs in arg))
